@@ -503,6 +503,108 @@ fn run_case(w: &mut W, c: &Case) -> Result<(String, Value), String> {
     Ok((outcome, detail))
 }
 
+
+/// One client with a large backlog of replies that reads slowly but steadily must not keep the event loop to itself:
+/// 48 GETs of a 1 MiB value are requested in one write; a reader thread of the checker takes 64 KiB every 4 ms (real time,
+/// the loop's back-off sleeps are real for this scenario) while the loop is stepped one iteration at a time. No single iteration may deliver more than two thirds of the backlog (the flush gives up after a few refusals of the
+/// socket); a seeded reset of the give-up counter on every partial success delivered nearly all of it inside one
+/// iteration, for as long as the reader cared to take - nobody else is served meanwhile.
+fn slow_reader_scenario(h: &mut Harness) -> Result<Option<Value>, String> {
+    use std::io::Read;
+    use std::sync::atomic::{AtomicBool, AtomicU64, Ordering};
+    use std::sync::Arc;
+    h.ensure()?;
+    h.aux_call(&["SELECT", "0"])?;
+    let value = vec![b'v'; 1 << 20];
+    h.aux_call(&[b"SET".to_vec(), b"slow:big".to_vec(), value.clone()])?;
+    let gets = 48usize;
+    let total = (gets * (value.len() + 12)) as u64;
+    let srv = h.srv.as_ref().unwrap();
+    let mut a = srv.connect().map_err(|e| format!("connect: {:?}", e))?;
+    let mut req = Vec::new();
+    for _ in 0..gets {
+        req.extend(resp::cmd(&["GET", "slow:big"]));
+    }
+    let stream = a.clone_stream().ok_or_else(|| "no socket to clone".to_string())?;
+    let got = Arc::new(AtomicU64::new(0));
+    let stop = Arc::new(AtomicBool::new(false));
+    // (the reader starts taking after the iteration in which the replies are produced: that one takes as long as
+    // producing 48 MiB takes, which says nothing about the flush)
+    let go = Arc::new(AtomicBool::new(false));
+    let go2 = go.clone();
+    let (got2, stop2) = (got.clone(), stop.clone());
+    let reader = std::thread::Builder::new().name("slow-reader".into()).spawn(move || {
+        crate::vtime::mark_free_running();
+        let mut stream = stream;
+        let _ = stream.set_nonblocking(true);
+        let mut buf = vec![0u8; 64 * 1024];
+        while !stop2.load(Ordering::SeqCst) {
+            if !go2.load(Ordering::SeqCst) {
+                crate::vtime::real_sleep_us(200);
+                continue;
+            }
+            if let Ok(n) = stream.read(&mut buf) {
+                got2.fetch_add(n as u64, Ordering::SeqCst);
+            }
+            crate::vtime::real_sleep_us(4000);
+        }
+    }).map_err(|e| format!("spawn reader: {}", e))?;
+    crate::vtime::REAL_SLEEPS_WHEN_FREE_RUNNING.store(true, Ordering::SeqCst);
+    a.send(&req);
+    let start = crate::vtime::real_now_ns();
+    let mut iterations = 0u64;
+    let mut dead = false;
+    let mut max_iter_us = 0u64;
+    let mut max_iter_bytes = 0u64;
+    let mut got_before = 0u64;
+    let mut last = crate::vtime::real_now_ns();
+    while got.load(Ordering::SeqCst) < total {
+        match srv.step() {
+            StepResult::Arrived => {}
+            _ => {
+                dead = true;
+                break;
+            }
+        }
+        iterations += 1;
+        go.store(true, Ordering::SeqCst);
+        let now = crate::vtime::real_now_ns();
+        max_iter_us = max_iter_us.max((now - last) / 1000);
+        let g = got.load(Ordering::SeqCst);
+        max_iter_bytes = max_iter_bytes.max(g - got_before);
+        crate::vtime::real_sleep_us(200);
+        last = crate::vtime::real_now_ns();
+        got_before = got.load(Ordering::SeqCst);
+        if crate::vtime::real_now_ns() - start > 60_000_000_000 {
+            break;
+        }
+    }
+    crate::vtime::REAL_SLEEPS_WHEN_FREE_RUNNING.store(false, Ordering::SeqCst);
+    stop.store(true, Ordering::SeqCst);
+    let _ = reader.join();
+    let delivered = got.load(Ordering::SeqCst);
+    a.discard();
+    if !dead {
+        let _ = h.srv.as_ref().unwrap().steps(2);
+        let _ = h.aux_call(&["DEL", "slow:big"]);
+    }
+    let ms = (crate::vtime::real_now_ns() - start) / 1_000_000;
+    if dead {
+        return Ok(Some(json!({"problem": "server-exited", "panic": crate::srv::LAST_PANIC.lock().unwrap().clone()})));
+    }
+    if delivered < total {
+        return Ok(Some(json!({"problem": "backlog-not-delivered-within-60-s", "delivered": delivered, "total": total, "iterations": iterations})));
+    }
+    // the loop's flush gives up after a handful of refusals, so what one iteration can deliver is what the reader takes
+    // during a few back-off sleeps - a small part of the backlog (about a fifth with these numbers); more than two thirds of it inside one iteration means the
+    // loop stayed with this connection for as long as its reader kept taking
+    if max_iter_bytes > total / 3 * 2 {
+        return Ok(Some(json!({"problem": "one-connection-kept-the-event-loop-to-itself", "bytes_delivered_within_one_loop_iteration": max_iter_bytes, "backlog_bytes": total, "longest_iteration_us": max_iter_us,
+            "took_ms": ms, "reader": "64 KiB every 4 ms"})));
+    }
+    Ok(Some(json!({"problem": null, "loop_iterations_until_the_backlog_was_through": iterations, "took_ms": ms, "longest_iteration_us": max_iter_us, "most_bytes_delivered_within_one_loop_iteration": max_iter_bytes, "backlog_bytes": total, "back_off_sleeps": crate::vtime::REAL_SLEEPS_TAKEN.load(Ordering::SeqCst), "back_off_sleep_us": crate::vtime::REAL_SLEEPS_US.load(Ordering::SeqCst)})))
+}
+
 pub fn handle_factory() -> impl FnMut(&str, &Value, &mut WorkerIo) -> (Value, bool) {
     let mut w = W { h: Harness::new(SrvOpts::default()), sentinel_ready: false, started: 0, other: Harness::new(SrvOpts { monitoring: true, ..SrvOpts::default() }), other_sentinel_ready: false,
         h_is_observed: false, monitor: None, monitor_restarts: usize::MAX };
@@ -518,6 +620,18 @@ pub fn handle_factory() -> impl FnMut(&str, &Value, &mut WorkerIo) -> (Value, bo
                 Err(e) => json!({"i": i, "machinery_error": e}),
             }
         };
+        if task.get("slow_reader").is_some() || task.get("replay").map(|r| r["kind"] == "slow_reader").unwrap_or(false) {
+            io.announce_case(json!({"slow_reader": true}));
+            if w.h_is_observed {
+                std::mem::swap(&mut w.h, &mut w.other);
+                std::mem::swap(&mut w.sentinel_ready, &mut w.other_sentinel_ready);
+                w.h_is_observed = false;
+            }
+            return (match slow_reader_scenario(&mut w.h) {
+                Ok(v) => json!({"slow_reader": v}),
+                Err(e) => json!({"slow_reader_error": e}),
+            }, true);
+        }
         if let Some(r) = task.get("replay") {
             let i = r["index"].as_u64().unwrap_or(0) as usize;
             if i < all.len() {
@@ -626,6 +740,20 @@ pub fn parent(tier: &str) -> i32 {
             }
         }
     }
+    let mut slow_reader_cov = json!(null);
+    match &pool.map(vec![json!({"slow_reader": true, "thorough": thorough})], 0)[0] {
+        Outcome::Done(v) => {
+            if let Some(e) = v.get("slow_reader_error") {
+                report.machinery_errors.push(format!("slow reader scenario: {}", e));
+            } else if let Some(r) = v.get("slow_reader") {
+                slow_reader_cov = r.clone();
+                if let Some(p) = r["problem"].as_str() {
+                    report.deviations.push(Deviation { property: "C06".into(), sig: format!("C06|SLOW-READER|{}", p), replay: json!({"kind": "slow_reader", "detail": r}) });
+                }
+            }
+        }
+        Outcome::Died { status, .. } => report.deviations.push(Deviation { property: "C06".into(), sig: "C06|SLOW-READER|process-died".into(), replay: json!({"kind": "slow_reader", "status": status}) }),
+    }
     let mut outcomes: BTreeSet<String> = BTreeSet::new();
     let mut distinct: BTreeSet<String> = BTreeSet::new();
     let mut samples = Vec::new();
@@ -649,7 +777,7 @@ pub fn parent(tier: &str) -> i32 {
     }
     println!("  c06: cases={} verdicts={} outcomes={:?}", all.len(), results.len(), outcomes);
     report.coverage = json!({
-        "evaluations": results.len(), "distinct_nontrivial": distinct.len(),
+        "evaluations": results.len(), "distinct_nontrivial": distinct.len(), "slow_reader_scenario": slow_reader_cov,
         "rule": "finite product enumerated completely: every dispatched command (table + names scraped from the source) x every argument position x boundary values (numeric positions: 0, +-1, i32/i64/u64 min/max and max+1, 1e308, inf, nan, empty, ...; id positions: 0-0, max-max, malformed; word positions: empty, 64 KiB, invalid UTF-8, NUL/CRLF, a huge number) x key state (missing, string, list; thorough: all six types and a 10^5-element list and 1 MiB string), plus every multi-key command with the same key twice and with a second key of the same storage shard, never-ending / exploding scripts and hostile byte frames (declared lengths up to 10^20, nesting up to 10^6, malformed frames, every proper prefix of every encoding of the codec corpus). One case = one request on a fresh connection followed by liveness (event loop alive, PONG on a new connection) and integrity (sentinel dataset of six types in db 1) probes.",
         "samples": samples, "exhaustive": true, "distinct_outcomes": outcomes.iter().cloned().collect::<Vec<_>>(),
         "excluded": ["SHUTDOWN (documented purpose: exits)", "SYNC/PSYNC (hand the connection to replication)", "REPLICAOF/SLAVEOF with a host (connects out); NO ONE is a case"],
